@@ -51,6 +51,29 @@ func (t *Trace) Emit(ev M) {
 	t.mu.Unlock()
 }
 
+// EmitBlock writes a group of events contiguously (scenarios that ran concurrently must not interleave).
+func (t *Trace) EmitBlock(evs []M) {
+	var out [][]byte
+	for _, ev := range evs {
+		b, err := json.Marshal(ev)
+		if err != nil {
+			fmt.Fprintln(os.Stderr, "trace marshal:", err)
+			os.Exit(2)
+		}
+		if bytes.Contains(b, []byte(":null")) {
+			b = bytes.ReplaceAll(b, []byte(":null"), []byte(":[]"))
+		}
+		out = append(out, b)
+	}
+	t.mu.Lock()
+	for _, b := range out {
+		t.w.Write(b)
+		t.w.WriteByte('\n')
+		t.N++
+	}
+	t.mu.Unlock()
+}
+
 func (t *Trace) Close() {
 	t.mu.Lock()
 	defer t.mu.Unlock()
